@@ -3,6 +3,8 @@
 package gi
 
 import (
+	"fmt"
+
 	"github.com/ohler55/slip"
 )
 
@@ -45,8 +47,8 @@ type MakeOctets struct {
 func (f *MakeOctets) Call(s *slip.Scope, args slip.List, depth int) slip.Object {
 	slip.CheckArgCount(s, depth, f, args, 1, 2)
 	size, ok := args[0].(slip.Fixnum)
-	if !ok || size < 0 {
-		slip.TypePanic(s, depth, "size", args[0], "fixnum")
+	if !ok || size < 0 || slip.ArrayMaxDimension < size {
+		slip.TypePanic(s, depth, "size", args[0], fmt.Sprintf("fixnum between 0 and %d", slip.ArrayMaxDimension))
 	}
 	ba := make([]byte, size)
 	if 1 < len(args) {
